@@ -5,9 +5,9 @@
       SN_fail  :  a request that does not fit fails with a real error
    and the contract discharged for the three decoders (bytes: here; peek / readfull: below).
 
-   Agreement is exact for inputs shorter than 2^31 bytes.  For longer inputs the template
-   accepts a STRING whose declared length has the sign bit set (int(uint32) is never negative on
-   64-bit platforms, the "sz < 0" test is dead code) — see tskip_negative_string. *)
+   Agreement is exact for inputs of any length (since the repair 2c7f196 the STRING length is read
+   as int32 like the container counts; before it, a length with the sign bit set was accepted
+   when >= 2^31 bytes followed). *)
 From GV Require Import Lib.Bytes Lib.Res Gen.Consts Model.Binary Model.BufReader Model.Skip Model.SkipDecoders
   Spec.ThriftGrammar Spec.RefParse Proofs.RefLib Proofs.RefP Proofs.SkipLib.
 From Coq Require Import ZifyN ZifyNat ZifyBool Lia.
@@ -65,10 +65,10 @@ Proof. unfold drop. rewrite skipn_length. cbn [length]. lia. Qed.
 Lemma member_ff rec t r : member false false rec t r = rec t r.
 Proof. reflexivity. Qed.
 
-(* the inputs we talk about: shorter than the fuel and than 2^31 *)
-Definition P (fu : nat) (r : bytes) : Prop := (length r < fu)%nat /\ len r < two31.
+(* the inputs we talk about: shorter than the loop fuel *)
+Definition P (fu : nat) (r : bytes) : Prop := (length r < fu)%nat.
 Lemma P_drop fu r n : P fu r -> P fu (drop n r).
-Proof. intros [H1 H2]. split; [unfold drop; rewrite skipn_length; lia|rewrite len_drop; lia]. Qed.
+Proof. unfold P. intros H. unfold drop. rewrite skipn_length. lia. Qed.
 
 Section Gen.
   Variable St : Type.
@@ -225,7 +225,6 @@ Section Tpl.
     induction d as [|d IH]; intros s r t HR Ht HP.
     { cbn. exists s, e_depth. split; [reflexivity|discriminate]. }
     assert (Hlen : (length r < fu)%nat) by apply HP.
-    assert (Hlt : len r < two31) by apply HP.
     rewrite rp_S. cbn [tskip]. rewrite (tts_ok STpl t Ht). unfold sret at 1. cbn [sbind].
     rewrite fixed_width_pos.
     destruct (is_ty_ok t Ht) as (Hs&Hm&_&Hl&Hst&_). rewrite Hs, Hst, Hm, Hl. clear Hs Hst Hm Hl.
@@ -237,16 +236,15 @@ Section Tpl.
       2:{ destruct (SN_fail s r 4 HR H4) as [s' [c [E Hc]]]. rewrite E. cbn. exists s', c. split; [reflexivity|exact Hc]. }
       destruct (SN_ok s r 4 HR H4) as [s1 [E1 HR1]]. rewrite E1. cbn [sbind].
       rewrite be_u32_take by exact H4. unfold sret at 1. cbn [sbind].
-      set (u := unbe (take 4 r)).
-      destruct (Z.ltb_spec (Z.of_N u) 0); [exfalso; slia|].
-      assert (Ld : len (drop 4 r) < two31) by (rewrite len_drop; slia).
+      pose proof (unbe4_lt r (Rep_wf _ _ HR)) as Hu. set (u := unbe (take 4 r)) in *.
+      cbv zeta. rewrite i32_neg by exact Hu.
       destruct (N.leb_spec two31 u) as [Hneg|Hpos].
-      { destruct (SN_fail s1 (drop 4 r) u HR1 ltac:(slia)) as [s' [c [E Hc]]]. rewrite E. cbn.
-        exists s', c. split; [reflexivity|exact Hc]. }
-      rewrite hasn_le. destruct (N.leb_spec u (len (drop 4 r))) as [Hu|Hu].
-      + destruct (SN_ok s1 (drop 4 r) u HR1 Hu) as [s2 [E2 HR2]]. rewrite E2. cbn.
+      { cbn. exists s1, e_neg_size. split; [reflexivity|discriminate]. }
+      rewrite i32_small by exact Hpos. rewrite N2Z.id.
+      rewrite hasn_le. destruct (N.leb_spec u (len (drop 4 r))) as [Hle|Hle].
+      + destruct (SN_ok s1 (drop 4 r) u HR1 Hle) as [s2 [E2 HR2]]. rewrite E2. cbn.
         exists s2. split; [reflexivity|]. rewrite drop_plus in HR2. exact HR2.
-      + destruct (SN_fail s1 (drop 4 r) u HR1 Hu) as [s' [c [E Hc]]]. rewrite E. cbn.
+      + destruct (SN_fail s1 (drop 4 r) u HR1 Hle) as [s' [c [E Hc]]]. rewrite E. cbn.
         exists s', c. split; [reflexivity|exact Hc].
     - (* struct *)
       apply tsim_top. apply t_struct_loop_sim; try assumption; [|slia].
@@ -290,7 +288,6 @@ Section Tpl.
                           (gpair (rp inl_none d kt) (rp inl_none d vt))); try assumption.
         * apply pair_sim; intros s0 r0 HR0 HP0; apply IH; assumption.
         * apply gpair_good; apply rp_good.
-        * apply HP1.
         * apply ldrop2.
     - (* list / set *)
       assert (Hfail : len r < 5 -> forall y, tsim (sbind (skipN s 5) y) r (Err E_TRUNC)).
@@ -328,26 +325,10 @@ Section Tpl.
         apply (t_loop_sim (fun s' => tskip skipN d fu s' et) (rp inl_none d et)); try assumption.
         * intros s0 r0 HR0 HP0; apply IH; assumption.
         * apply rp_good.
-        * apply HP1.
         * apply ldrop1.
     - cbn. exists s, e_unknown_type. split; [reflexivity|discriminate].
   Qed.
 
-  (* no bound on the input length: a STRING whose 4-byte length field u (ANY value up to 2^32-1,
-     sign bit included) is followed by u bytes is accepted *)
-  Lemma tskip_string_any d s r : Rep s r -> 4 <= len r -> unbe (take 4 r) <= len (drop 4 r) ->
-    exists s', tskip skipN (S d) fu s T_STRING = (s', Ok tt) /\ Rep s' (drop (4 + unbe (take 4 r)) r).
-  Proof.
-    intros HR H4 Hu. cbn [tskip].
-    rewrite (tts_ok STpl T_STRING ltac:(unfold T_STRING; slia)). unfold sret at 1. cbn [sbind].
-    change (0 <? Z.of_N (fixed_width T_STRING))%Z with false.
-    change (is_ty T_STRING thrift_STRING) with true. cbv iota.
-    destruct (SN_ok s r 4 HR H4) as [s1 [E1 HR1]]. rewrite E1. cbn [sbind].
-    rewrite be_u32_take by exact H4. unfold sret at 1. cbn [sbind].
-    destruct (Z.ltb_spec (Z.of_N (unbe (take 4 r))) 0); [exfalso; slia|].
-    destruct (SN_ok s1 (drop 4 r) _ HR1 Hu) as [s2 [E2 HR2]]. rewrite E2. cbn [sbind].
-    exists s2. split; [reflexivity|]. rewrite drop_plus in HR2. exact HR2.
-  Qed.
 End Tpl.
 
 Lemma tsim_total {St} (Rep : St -> bytes -> Prop) x r i d t :
@@ -396,7 +377,7 @@ Qed.
 Lemma bs_rep_wf b0 : forall s r, bs_rep b0 s r -> wf r.
 Proof. intros s r (_ & _ & -> & W). apply wf_drop, W. Qed.
 
-(* BytesSkipDecoder.Next on a fresh decoder over b (|b| < 2^31): accepts exactly when the
+(* BytesSkipDecoder.Next on a fresh decoder over any b: accepts exactly when the
    reference does; returns exactly the first n bytes and keeps the rest *)
 Lemma bs_finish b t d s' n : n <= len b ->
   tskip bs_skipN d (S (length b)) (bs_new b) t = (s', Ok tt) -> bs_rep b s' (drop n b) ->
@@ -411,18 +392,18 @@ Proof.
   rewrite N.sub_0_r. reflexivity.
 Qed.
 
-Theorem bs_next_is_ref b t d : wf b -> t < 256 -> len b < two31 ->
+Theorem bs_next_is_ref b t d : wf b -> t < 256 ->
   match rp inl_none d t b with
   | Ok (n, _) => bs_next_depth (bs_new b) t d = ({| bs_b := drop n b; bs_n := 0 |}, Ok (take n b))
   | Err _ => exists s c, bs_next_depth (bs_new b) t d = (s, Err c) /\ c <> e_fuel
   | _ => False
   end.
 Proof.
-  intros W Ht Hlen.
+  intros W Ht.
   assert (HR : bs_rep b (bs_new b) b).
   { unfold bs_rep, bs_new. cbn [bs_b bs_n]. repeat split; try assumption; try lia. }
   pose proof (tskip_sim bs_state bs_skipN (bs_rep b) (bs_SN_ok b) (bs_SN_fail b) (bs_rep_wf b)
-                (S (length b)) d (bs_new b) b t HR Ht ltac:(split; [lia|exact Hlen])) as T.
+                (S (length b)) d (bs_new b) b t HR Ht ltac:(unfold P; lia)) as T.
   pose proof (rp_good inl_none d t b) as G.
   unfold tsim in T. destruct (rp inl_none d t b) as [[n h]|e| |]; try contradiction.
   - destruct T as [s' [E HR']]. specialize (G n h eq_refl).
@@ -431,10 +412,10 @@ Proof.
     rewrite E. cbn [sbind]. exists s', c. auto.
 Qed.
 
-Corollary bs_next_depth_accepts b t d n : wf b -> t < 256 -> len b < two31 ->
+Corollary bs_next_depth_accepts b t d n : wf b -> t < 256 ->
   ((exists s out, bs_next_depth (bs_new b) t d = (s, Ok out) /\ len out = n) <-> refparse inl_none d t b = Ok n).
 Proof.
-  intros W Ht Hlen. pose proof (bs_next_is_ref b t d W Ht Hlen) as T.
+  intros W Ht. pose proof (bs_next_is_ref b t d W Ht) as T.
   rewrite ref_inv.
   pose proof (rp_good inl_none d t b) as G.
   destruct (rp inl_none d t b) as [[n' h]|e| |]; try contradiction.
@@ -448,18 +429,18 @@ Proof.
     + intros [h' E']. discriminate.
 Qed.
 
-Theorem bs_next_depth_safe b t d : wf b -> t < 256 -> len b < two31 -> safe (snd (bs_next_depth (bs_new b) t d)).
+Theorem bs_next_depth_safe b t d : wf b -> t < 256 -> safe (snd (bs_next_depth (bs_new b) t d)).
 Proof.
-  intros W Ht Hlen. pose proof (bs_next_is_ref b t d W Ht Hlen) as T.
+  intros W Ht. pose proof (bs_next_is_ref b t d W Ht) as T.
   destruct (rp inl_none d t b) as [[n' h]|e| |]; try contradiction.
   - rewrite T. exact I.
   - destruct T as [s [c [E _]]]. rewrite E. exact I.
 Qed.
 
-Theorem bs_next_depth_bounded b t d s out : wf b -> t < 256 -> len b < two31 ->
+Theorem bs_next_depth_bounded b t d s out : wf b -> t < 256 ->
   bs_next_depth (bs_new b) t d = (s, Ok out) -> 1 <= len out <= len b /\ out = take (len out) b.
 Proof.
-  intros W Ht Hlen E. pose proof (bs_next_is_ref b t d W Ht Hlen) as T.
+  intros W Ht E. pose proof (bs_next_is_ref b t d W Ht) as T.
   pose proof (rp_good inl_none d t b) as G.
   destruct (rp inl_none d t b) as [[n' h]|e| |]; try contradiction.
   - specialize (G n' h eq_refl). rewrite T in E.
@@ -472,11 +453,11 @@ Qed.
 Lemma bs_next_eq s t : bs_next s t = bs_next_depth s t depth0.
 Proof. reflexivity. Qed.
 
-Corollary bs_next_accepts b t n : wf b -> t < 256 -> len b < two31 ->
+Corollary bs_next_accepts b t n : wf b -> t < 256 ->
   ((exists s out, bs_next (bs_new b) t = (s, Ok out) /\ len out = n) <-> refparse inl_none 64 t b = Ok n).
 Proof. rewrite <- depth_ok. apply bs_next_depth_accepts. Qed.
-Theorem bs_next_safe b t : wf b -> t < 256 -> len b < two31 -> safe (snd (bs_next (bs_new b) t)).
+Theorem bs_next_safe b t : wf b -> t < 256 -> safe (snd (bs_next (bs_new b) t)).
 Proof. apply bs_next_depth_safe. Qed.
-Theorem bs_next_bounded b t s out : wf b -> t < 256 -> len b < two31 ->
+Theorem bs_next_bounded b t s out : wf b -> t < 256 ->
   bs_next (bs_new b) t = (s, Ok out) -> 1 <= len out <= len b /\ out = take (len out) b.
 Proof. apply bs_next_depth_bounded. Qed.
